@@ -255,19 +255,6 @@ func (o *oracle) checkEnum(at string, name string, e *j5sgen.Enum, de *DEnum) {
 		want = append(want, DVal{n, i + 1})
 	}
 	if fmt.Sprint(de.Vals) != fmt.Sprint(want) {
-		// the recorded finding, and nothing else: the FIRST declared option ends in UNSPECIFIED
-		// under a name of its own (not the zero value spelled out) and the compiler made exactly
-		// it the zero value, the remaining options numbered from 1
-		if len(e.Opts) > 0 && strings.HasSuffix(e.Opts[0], "UNSPECIFIED") && len(opts) == len(e.Opts) {
-			named := make([]DVal, 0, len(opts))
-			for i, v := range want[1:] {
-				named = append(named, DVal{v.Name, i})
-			}
-			if fmt.Sprint(de.Vals) == fmt.Sprint(named) {
-				o.fail("C02 first enum option ending in UNSPECIFIED under a name of its own becomes the zero value: no <PREFIX>UNSPECIFIED, options numbered from 0", "enum options numbered in order after implicit UNSPECIFIED", at+": "+fmt.Sprint(de.Vals), fmt.Sprint(want))
-				return
-			}
-		}
 		o.fail("C02 enum values: not the declared options numbered in order after <PREFIX>UNSPECIFIED=0", "enum options numbered in order after implicit UNSPECIFIED", at+": "+fmt.Sprint(de.Vals), fmt.Sprint(want))
 	}
 }
@@ -339,6 +326,13 @@ func (o *oracle) checkMsg(fc *fileCtx, scopePath []string, kind string, virt, pr
 			want.Opt3 = false
 			if df.Opt3 {
 				o.fail("C02 optional array / map marked proto3_optional (repeated field in a synthetic oneof)", "declared cardinality and optionality", fmt.Sprintf("%s: %s proto3_optional", fat, df.Label), "repeated, not proto3_optional")
+			}
+		} else if kind == "oneof" && p.Optional {
+			// every option of a oneof is optional already; a member of the wrapper's oneof
+			// cannot be in a synthetic oneof of its own (fix a0446fc)
+			want.Opt3 = false
+			if df.Opt3 {
+				o.fail("C02 optional oneof option marked proto3_optional (member of a real oneof)", "declared optionality and oneof membership", fmt.Sprintf("%s: proto3_optional", fat), "not proto3_optional")
 			}
 		} else if df.Opt3 != want.Opt3 {
 			o.fail("C02 field optionality (proto3_optional)", "declared optionality", fmt.Sprintf("%s: %v", fat, df.Opt3), fmt.Sprint(want.Opt3))
